@@ -303,12 +303,20 @@ def main(ctx):
     # registered (a hand-picked option set misses e.g. the one branch `units='rad', stomp=True` that
     # works on the caller's array).  Array arguments named in `kwarr` are passed by keyword.
     import itertools
+    BO = [False, True]
 
     def ospec(name, f, arrays, options, kwarr=(), fixed=None):
         keys = list(options)
-        for combo in itertools.product(*[options[k] for k in keys]):
+        combos = list(itertools.product(*[options[k] for k in keys]))
+        # every boolean option once more as numpy.bool_ and as int 0/1 (what a comparison, a table column or a
+        # command-line flag yields), the other options at their first value: "flag is False" style tests
+        for k in keys:
+            if options[k] == BO or options[k] == [False]:
+                for v in ([np.False_, np.True_, 0, 1] if options[k] == BO else [np.False_, 0]):
+                    combos.append(tuple(v if kk == k else options[kk][0] for kk in keys))
+        for combo in combos:
             kw = dict(zip(keys, combo))
-            nm = "%s[%s]" % (name, ",".join("%s=%r" % (k, kw[k]) for k in keys))
+            nm = "%s[%s]" % (name, ",".join("%s=%s%r" % (k, type(kw[k]).__name__ + ":" if isinstance(kw[k], (np.bool_, int)) and not isinstance(kw[k], bool) else "", kw[k]) for k in keys))
 
             def call(_kw=kw, _f=f, _names=list(arrays), **arrs):
                 pos = [arrs[k] for k in _names if k not in kwarr]
@@ -318,7 +326,6 @@ def main(ctx):
                 return _f(*pos, **kws)
             SPECS[nm] = (dict(arrays), call)
 
-    BO = [False, True]
     # numbers that are valid both as degrees and as radians (ra in [0,2pi), |dec| <= pi/2)
     ura = np.array([0.2, 3.5, 6.2, 0.8])
     udec = np.array([-0.35, 0.8, 1.5, 0.0])
@@ -409,7 +416,13 @@ def main(ctx):
           dict(delim=[None, ",", " "], bracket_arrays=BO, padnull=BO))
 
     # wcs, htm: every option combination
-    for hname, h, (l1, l2) in (("tpv", hd, (lon, lat)), ("sip", sip, (slon, slat)), ("tan", tan, (tlon, tlat))):
+    # reference point exactly on a pole with CRVAL1 = 0 (the rotation to the native system is the identity there)
+    pole_n = W.make_header("TAN", (0.0, 90.0), 0.27, 0.0, False, (1024.0, 2048.0))
+    pole_s = W.make_header("SIP2", (0.0, -90.0), 0.27, 30.0, False, (1024.0, 2048.0))
+    pnl = [np.asarray(v, dtype="f8") for v in W.forward(pole_n, px, py)]
+    psl = [np.asarray(v, dtype="f8") for v in W.forward(pole_s, px, py)]
+    for hname, h, (l1, l2) in (("tpv", hd, (lon, lat)), ("sip", sip, (slon, slat)), ("tan", tan, (tlon, tlat)),
+                               ("tan-at-north-pole", pole_n, pnl), ("sip-at-south-pole", pole_s, psl)):
         ospec("wcs.image2sky(%s)" % hname, lambda a, b, _h=h, **kw: wcsutil.WCS(dict(_h)).image2sky(a, b, **kw), dict(a=px, b=py),
               dict(distort=BO))
         ospec("wcs.sky2image(%s)" % hname, lambda a, b, _h=h, **kw: wcsutil.WCS(dict(_h)).sky2image(a, b, **kw),
